@@ -55,6 +55,18 @@ CHECKS = {
         note='Known finding: regime Trock <= Tinj (accepted input) breaks the upper/monotone clauses for models 3/4. The analytical drawdown '
              'solutions are not recomputed. Continuous inputs sampled by seed.',
         tech='TLA+ spec (Resource.tla) model-checked with TLC; TLC layouts replayed into code; TLC trace validation (TraceResource.tla)'),
+    'C06': dict(
+        cat='model_checking', ref='DESIGN.md section 5 C06',
+        text='Units.tla holds the program\'s unit catalogue as exact (dimension, scale, offset) rationals from the SI/NIST definitions; '
+             'UnitTrack.tla models (value, real unit, label unit) through ReadWithUnit / Use / ConvertBack / Echo and TLC checks every ordered '
+             'pair of convertible catalogue units: computation is right in every case, the echo is right whenever the canonical-name lookup '
+             'succeeds (the failing-lookup counterexample is required in the thorough tier). Against the code: (a) every float parameter of '
+             '8 families x every other convertible catalogue unit through the real ReadParameter -> read_parameters -> pre-print unit pass '
+             '(351 cases, complete); (b) seeded paired full runs compared on every computed figure; (c) every output parameter x convertible '
+             'unit as a Units: directive on two bases (510; quick 160) - all validated by TraceUnits.tla with the exact factors.',
+        note='241 known findings in known_findings_C06.json (generated by the calibration run, reviewed): raising unit classes, double-converted '
+             'echoes, currency prefix/suffix handling, output directives that leak into other lines. Every case not listed still alarms.',
+        tech='TLA+ unit-tracking spec (UnitTrack.tla, Units.tla) model-checked with TLC; exhaustive parameter x unit matrix run through the code and validated by TLC (TraceUnits.tla)'),
     'C07': dict(
         cat='model_checking', ref='DESIGN.md section 5 C07',
         text='ReadParam.tla (decision table of ReadParameter, order of tests as in the code) is model-checked over every small '
